@@ -332,7 +332,7 @@ func genSymbol(r *lib.Rng, mode int) string {
 var floatSpecials = []float64{0, math.Copysign(0, -1), 1, -1, 0.1 + 0.2, 1.0 / 3, 2.0 / 3, 1e21, 1e20, 1e22, 123456789012345678, 5e-324, -5e-324,
 	math.MaxFloat64, -math.MaxFloat64, math.SmallestNonzeroFloat64, 2.2250738585072014e-308, 2.225073858507201e-308, math.Inf(1), math.Inf(-1), math.NaN(),
 	1e15, 1e16, 1e17, 9007199254740992, 9007199254740993, 0.5, -0.5, 1e-7, 1e-5, 100, 1e6, 3, -3, 4.35, 0.000001, 1e23, 8.41e21, 1.7976931348623157e308,
-	4.9e-324, 1e-320, float64(math.MaxInt64), -float64(math.MaxInt64), 1 << 53, 0.30000000000000004, 2.5e-10}
+	4.9e-324, 1e-320, 3 * 1e25, 7 * 1e-9, 2 * 1e300, 4 * 1e-300, 6e21, 9e-7, 1e100, 5e-5, float64(math.MaxInt64), -float64(math.MaxInt64), 1 << 53, 0.30000000000000004, 2.5e-10}
 
 func genFloat(r *lib.Rng) float64 {
 	switch r.Intn(8) {
@@ -489,7 +489,7 @@ func genValue(r *lib.Rng, depth int, o genOpt) *V {
 		} else if r.Intn(4) == 0 {
 			k = &V{K: 'S', S: genString(r)}
 		} else {
-			k = &V{K: 'S', S: genSymbol(r, 0) + []string{"", " x", "-y", "1"}[r.Intn(4)]}
+			k = &V{K: 'S', S: genSymbol(r, 0) + []string{"", " x", "-y", "1", "\\", "\\n", "a\\\\b", "\"q"}[r.Intn(8)]}
 		}
 		if seen[k.S] {
 			continue
